@@ -473,9 +473,12 @@ def write_capture(b, workdir, pkts=None, container=None, keys=None, name="in"):
                 e = c["endian"]
                 recs = b""
                 kk = 0
-                while len(recs) + 24 <= blen:
-                    val = bytes([10, 0, (kk >> 8) & 0xFF, kk & 0xFF]) + b"host%05d.example" % (kk % 100000) + b"\x00"
-                    recs += struct.pack(e + "HH", 1, len(val)) + val + b"\x00" * (-len(val) % 4)
+                while len(recs) + 48 <= blen:
+                    # IPv4 records with low and high address bytes, IPv6 records, one or two names per record
+                    addr = [bytes([10, 0, (kk >> 8) & 0xFF, kk & 0xFF]), bytes([192, 168, 200 + kk % 50, 255 - kk % 100]),
+                            bytes.fromhex("20010db8") + bytes([0xFE, kk & 0xFF]) * 6][kk % 3]
+                    val = addr + b"host%05d.example" % (kk % 100000) + b"\x00" + (b"alias-%d\x00" % kk if kk % 4 == 3 else b"")
+                    recs += struct.pack(e + "HH", 1 if len(addr) == 4 else 2, len(val)) + val + b"\x00" * (-len(val) % 4)
                     kk += 1
                 body = recs + struct.pack(e + "HH", 0, 0)
             elif btype == 5:   # ISB: interface id + timestamp
